@@ -186,6 +186,71 @@ theorem checked_predicates_authorised (vm : List Input → Vm) (inputs : List In
     have := asyncTasks_allOk predOwner (vm (stripGas inputs)) inputs 0 hall k o c gas hk
     simpa using this
 
+/-- sum of the declared `predicate_gas_used` -/
+def declaredSum : List Input → Nat
+  | [] => 0
+  | .predicate _ _ g :: rest => g + declaredSum rest
+  | _ :: rest => declaredSum rest
+
+/-- when every predicate input has the right owner and runs to true with exactly its declared gas, the task list is
+`Ok(declared gas)` for each of them -/
+theorem asyncTasks_of_good (vm : Vm) (ins : List Input) (index : Nat)
+    (h : ∀ k o c gas, ins[k]? = some (.predicate o c gas) →
+      o = predOwner c ∧ vm .verification (index + k) gas = .done 0 .returnOne) :
+    AllOk (asyncTasks predOwner vm .verifying ins index) ∧
+    total (asyncTasks predOwner vm .verifying ins index) = declaredSum ins := by
+  induction ins generalizing index with
+  | nil =>
+    refine ⟨?_, rfl⟩
+    intro x hx
+    simp [asyncTasks] at hx
+  | cons inp rest ih =>
+    have hrest : ∀ k o c gas, rest[k]? = some (.predicate o c gas) →
+        o = predOwner c ∧ vm .verification (index + 1 + k) gas = .done 0 .returnOne := by
+      intro k o c gas hk
+      have := h (k + 1) o c gas (by simpa using hk)
+      rwa [show index + (k + 1) = index + 1 + k by omega] at this
+    obtain ⟨ih1, ih2⟩ := ih (index + 1) hrest
+    cases inp with
+    | signed o w => simpa [asyncTasks, declaredSum] using ⟨ih1, ih2⟩
+    | contract => simpa [asyncTasks, declaredSum] using ⟨ih1, ih2⟩
+    | predicate o c g =>
+      obtain ⟨ho, hv⟩ := h 0 o c g (by simp)
+      have hv' : vm .verification index g = .done 0 .returnOne := by simpa using hv
+      have hcp : checkPredicate predOwner vm .verifying index o c g = (g, .ok ()) := by
+        simp [checkPredicate, ho, hv']
+      simp only [asyncTasks, hcp, Except.map, declaredSum]
+      constructor
+      · intro x hx
+        rcases List.mem_cons.1 hx with he | he
+        · subst he; exact ⟨g, rfl⟩
+        · exact ih1 x he
+      · simp [total, gasOf] at ih2 ⊢
+        omega
+
+/-- `check_predicates` succeeds with total `g` EXACTLY when max_gas fits the limit, every predicate input is owned by
+its predicate root and returned true using exactly its declared gas, and `g` is the (non-overflowing) sum -/
+theorem check_predicates_ok_iff (vm : List Input → Vm) (inputs : List Input) (g : Nat) :
+    checkPredicates predOwner maxGas p vm inputs = .ok g ↔
+      maxGas inputs ≤ p.maxGasPerTx ∧
+      (∀ k o c gas, inputs[k]? = some (.predicate o c gas) →
+        o = predOwner c ∧ vm (stripGas inputs) .verification k gas = .done 0 .returnOne) ∧
+      g = declaredSum inputs ∧ g ≤ wordMax := by
+  constructor
+  · intro hok
+    obtain ⟨h1, h2, h3, h4⟩ := checked_predicates_authorised predOwner maxGas p vm inputs g hok
+    refine ⟨h1, h2, ?_, h4⟩
+    rw [h3]
+    exact (asyncTasks_of_good predOwner (vm (stripGas inputs)) inputs 0 (by simpa using h2)).2
+  · rintro ⟨h1, h2, h3, h4⟩
+    obtain ⟨ha, ht⟩ := asyncTasks_of_good predOwner (vm (stripGas inputs)) inputs 0 (by simpa using h2)
+    unfold checkPredicates runPredicates finalize
+    simp only [Bool.false_eq_true, if_false, runLoop_verifying_eq]
+    have : ¬ maxGas inputs > p.maxGasPerTx := by omega
+    simp only [this, if_false]
+    rw [accumulate_ok_iff _ 0 g (by simp [wordMax])]
+    exact ⟨ha, by omega, by omega⟩
+
 /-- Estimate-then-verify, sequential estimation. If estimation succeeded with total `g`, every predicate has the
 right owner and returned true during estimation (`EstGood`), and the VM is gas-exact (`GasExact`; the VM sees the
 transaction with `predicate_gas_used` stripped, so it is the same function before and after estimation — that
@@ -212,6 +277,37 @@ theorem estimate_then_verify (vm : List Input → Vm) (inputs inputs' : List Inp
     simp only [hmg, if_false]
     rw [← hi, hA, verify_after_estimate predOwner _ _ hexact inputs 0 _ hgood]
     exact hacc
+
+/-- Estimate-then-verify, PARALLEL estimation, for every completion order of the estimation tasks: the estimates
+written back do not depend on the order (`applyEstimates_perm`), and under the same two hypotheses (with the
+parallel estimator's gas bound `min(max_gas_per_predicate, max_gas_per_tx)`) verification succeeds with the same total. -/
+theorem estimate_async_then_verify (vm : List Input → Vm) (order : Checks → Checks) (hperm : ∀ l, (order l).Perm l)
+    (inputs inputs' : List Input) (g : Nat)
+    (hest : estimatePredicatesAsync predOwner maxGas p vm order inputs = (inputs', .ok g))
+    (hgood : EstGoodA predOwner (vm (stripGas inputs)) (min p.maxGasPerPredicate p.maxGasPerTx) inputs 0)
+    (hexact : GasExact (vm (stripGas inputs))) :
+    checkPredicates predOwner maxGas p vm inputs' = .ok g := by
+  unfold estimatePredicatesAsync runPredicatesAsync finalize at hest
+  simp only [if_true] at hest
+  have hnd := asyncTasks_nodup predOwner (vm (stripGas inputs))
+    (.estimating (min p.maxGasPerPredicate p.maxGasPerTx)) inputs 0
+  have hpe := applyEstimates_perm (hperm (asyncTasks predOwner (vm (stripGas inputs))
+    (.estimating (min p.maxGasPerPredicate p.maxGasPerTx)) inputs 0))
+    (((hperm _).map _).nodup_iff.2 hnd) inputs
+  have hA := applyEstimates_asyncTasks predOwner (vm (stripGas inputs)) (min p.maxGasPerPredicate p.maxGasPerTx) inputs []
+  simp only [List.nil_append, List.length_nil] at hA
+  split at hest
+  · cases hest
+  · rename_i hmg
+    injection hest with hi hacc
+    rw [hpe] at hi hmg
+    have hstrip : stripGas inputs' = stripGas inputs := by rw [← hi, stripGas_applyEstimates]
+    unfold checkPredicates runPredicates finalize
+    simp only [Bool.false_eq_true, if_false, runLoop_verifying_eq, hstrip]
+    rw [hi] at hmg
+    simp only [hmg, if_false]
+    rw [← hi, hA, verify_after_estimateA predOwner _ _ hexact inputs 0 hgood]
+    exact (accumulate_ok_perm (hperm _) g).1 hacc
 
 /-- The literal sentence "verification of the estimated transaction succeeds whenever estimation succeeded". -/
 def EstimateThenVerifyLiteral : Prop :=
